@@ -58,11 +58,22 @@ def _writer_classes():
             for line in super().to_lines():
                 if self.passes[0] >= self._args.get('on_pass', 1) and \
                         n >= self._args.get('after', 0):
-                    raise RuntimeError('writer failed after %d lines' % n)
+                    raise self._exc()('writer failed after %d lines' % n)
                 n += 1
                 yield line
             if self.passes[0] >= self._args.get('on_pass', 1):
-                raise RuntimeError('writer failed at end')
+                raise self._exc()('writer failed at end')
+
+        def _exc(self):
+            from pico8 import util
+            return {'RuntimeError': RuntimeError, 'ValueError': ValueError,
+                    'NotImplementedError': NotImplementedError,
+                    'OSError': OSError, 'KeyError': KeyError,
+                    'util.Error': util.Error,
+                    'InvalidP8DataError': util.InvalidP8DataError,
+                    'StopIteration': StopIteration,
+                    'SystemExit': SystemExit}[
+                self._args.get('exc', 'RuntimeError')]
 
     class GarbageWriter(lua.BaseLuaWriter):
         def to_lines(self):
@@ -183,8 +194,14 @@ def _cart_spec(rng):
 
 
 INTERNAL_FAULTS = (
-    [{'kind': 'WRITER-RAISE', 'after': a, 'on_pass': p}
-     for a in (0, 1, 3, 99) for p in (1, 2)] +
+    [{'kind': 'WRITER-RAISE', 'after': a, 'on_pass': p, 'exc': e}
+     for (a, p, e) in ((0, 1, 'RuntimeError'), (1, 1, 'ValueError'),
+                       (3, 1, 'NotImplementedError'), (99, 1, 'OSError'),
+                       (0, 2, 'util.Error'), (1, 2, 'NotImplementedError'),
+                       (3, 2, 'InvalidP8DataError'), (99, 2, 'KeyError'),
+                       (2, 1, 'StopIteration'), (2, 2, 'SystemExit'),
+                       (0, 1, 'NotImplementedError'))] +
+    [{'kind': 'WRITER-BASE'}] +
     [{'kind': 'WRITER-GARBAGE', 'which': w}
      for w in ('GarbageWriter', 'UnterminatedWriter', 'NotBytesWriter')] +
     [{'kind': 'SECTION-BAD', 'how': h}
@@ -323,7 +340,13 @@ def _setup(w, sc):
         wargs = sc.get('writer_args')
         if fk == 'WRITER-RAISE':
             wname = 'RaiseAfterWriter'
-            wargs = {'after': fault['after'], 'on_pass': fault['on_pass']}
+            wargs = {'after': fault['after'], 'on_pass': fault['on_pass'],
+                     'exc': fault.get('exc', 'RuntimeError')}
+        elif fk == 'WRITER-BASE':
+            # the abstract base class is a writer whose to_lines raises
+            # NotImplementedError
+            wname = 'BaseLuaWriter'
+            wargs = None
         if wargs and wargs.get('keep_names_from_file'):
             wargs = dict(wargs, keep_names_from_file=w.subst(
                 wargs['keep_names_from_file']))
@@ -530,18 +553,21 @@ def execute(sc, profile=False):
         if fired:
             core.bump(res['faults'], fired if fk != 'CRASH'
                       else 'CRASH:' + fault['exc'])
-        # a destination was produced iff an encoder call for it returned
-        # (calls are matched by the filename the encoder was told; without
-        # that information only the single-destination case is decided)
+        # A failed operation must leave its destination untouched.  Faults
+        # are only ever injected until the encoder returns, so a failure that
+        # shows up later (a check moved behind the copy, say) is the code's
+        # own and counts.  A multi-file command legitimately rewrites the
+        # carts it finished before the one that failed: destination d is
+        # exempt iff a whole file.to_file(d) call returned normally.
         def produced(d):
-            named = [c for c in ctl['calls'] if isinstance(c[0], str)]
-            if named:
-                full = os.path.normpath(w.p(d))
-                return any(c[1] and os.path.normpath(os.path.join(
-                    w.root, c[0])) == full for c in named)
             if len(dests) == 1:
-                return ctl['returned'] >= 1
-            return True
+                return False
+            api = [c for c in ctl['writes_api'] if isinstance(c[0], str)]
+            if not api:
+                return True      # no attribution possible: no requirement
+            full = os.path.normpath(w.p(d))
+            return any(c[1] and os.path.normpath(os.path.join(
+                w.root, c[0])) == full for c in api)
         bad_i = None
         for i, d in enumerate(dests):
             if failed and not produced(d) and befores[i] != afters[i]:
@@ -664,8 +690,8 @@ def _area(fired):
 
 def plan(prop, tier):
     if tier == 'quick':
-        return {'runs': len(MATRIX), 'wall_cap': 900}
-    return {'runs': 4 * len(MATRIX), 'wall_cap': 4 * 3600}
+        return {'runs': len(MATRIX), 'wall_cap': 900, 'chunk': 1}
+    return {'runs': 4 * len(MATRIX), 'wall_cap': 4 * 3600, 'chunk': 1}
 
 
 def jobs(prop, tier, seed, runs):
@@ -701,7 +727,7 @@ def run_job(job):
     out = []
     kind = job['kind']
     if kind == 'c11-writes':
-        clean = execute(base)
+        clean = core.isolated(execute, base)
         if job['split'][0] == 0:
             out.append((base, clean))
         total = clean['_ctl']['writes']
@@ -722,14 +748,14 @@ def run_job(job):
             sc = dict(base, fault={'kind': 'W-ERR', 'k': k,
                                    'errno': frng.choice(['ENOSPC', 'EIO'])},
                       _writes_total=total)
-            out.append((sc, execute(sc)))
+            out.append((sc, core.isolated(execute, sc)))
             if job['full'] or k % 3 == 0:
                 sc = dict(base, fault={'kind': 'W-TORN', 'k': k,
                                        'frac': frng.choice([0.0, 0.5, 0.99])},
                           _writes_total=total)
-                out.append((sc, execute(sc)))
+                out.append((sc, core.isolated(execute, sc)))
     elif kind == 'c11-crash':
-        prof = execute(base, profile=True)
+        prof = core.isolated(execute, base, profile=True)
         sites = prof.get('_profile') or {}
         if not sites:
             return out
@@ -749,7 +775,7 @@ def run_job(job):
                                'KeyboardInterrupt'])
             sc = dict(base, fault={'kind': 'CRASH', 'site': [f, line],
                                    'hit': hit, 'exc': exc})
-            out.append((sc, execute(sc)))
+            out.append((sc, core.isolated(execute, sc)))
     elif kind == 'c11-internal':
         route = base['route']
         if route in LIB_ROUTES:
@@ -770,7 +796,7 @@ def run_job(job):
                 sc['cart'] = cart
             if fl['kind'] == 'LABEL-BAD' and base['fmt'] != 'png':
                 continue
-            out.append((sc, execute(sc)))
+            out.append((sc, core.isolated(execute, sc)))
     else:
         raise core.HarnessError(kind)
     for sc, r in out:
